@@ -138,8 +138,8 @@ theorem r_generic_least {d : Nat} (hd : 1 ≤ d ∧ d ≤ s.size) :
   obtain ⟨k, a, b, c, _, e, f⟩ := h.r_generic hi hj hd.1 hd.2
   exact ⟨k, b, ⟨a, e, f⟩, c⟩
 
-/-- iterates of the composite stay in the orbit -/
 omit h hi hj in
+/-- iterates of the composite stay in the orbit -/
 theorem Orb2.iter (d : Nat) : ∀ t, Orb2 s i j d ((s.comp i j)^[t] d)
   | 0 => Orb2.refl d
   | t + 1 => by
